@@ -326,7 +326,7 @@ func c06Evaluate(e *core.Env, r *core.Rand, text string, recs []klog.Record, w m
 	}
 	fillOK := maxD-minD <= 3000
 	chartOK := absTotal <= 10_000_000
-	forceChart := strings.Contains(text, "9223372036854775807m") // witness of the recorded chart finding
+	forceChart := text == c06Witnesses[2] // only the fixed witness of the recorded chart finding drives --chart beyond the size bound
 	clock := c06Clock(r, recs)
 	theme := r.Pick("no_colour", "dark", "light", "basic")
 	cpus := r.PickInt(1, 1, 2, 8)
@@ -395,7 +395,7 @@ func c06Binary(e *core.Env, r *core.Rand, text string, accepted bool, w map[stri
 			return
 		}
 		if obs.LooksLikeGoCrash(res.Stdout) || obs.LooksLikeGoCrash(res.Stderr) || res.Code == 2 && strings.Contains(res.Stderr, "goroutine") {
-			e.Violation("binary-crash: "+core.PanicSite(firstPanicLine(res.Stderr+res.Stdout), res.Stderr+res.Stdout), fmt.Sprintf("klog %v (%s) crashed:\n%s", a[:len(a)-1], how, trunc(res.Stderr+res.Stdout, 1500)), w)
+			e.Violation("command-panic: "+core.PanicSite(strings.TrimPrefix(firstPanicLine(res.Stderr+res.Stdout), "panic: "), res.Stderr+res.Stdout), fmt.Sprintf("klog %v (%s) crashed:\n%s", a[:len(a)-1], how, trunc(res.Stderr+res.Stdout, 1500)), w)
 			return
 		}
 		if res.Code < 0 || res.Code > 8 {
